@@ -2,6 +2,7 @@ package props
 
 import (
 	"fmt"
+	"go/token"
 	"go/types"
 	"sort"
 	"strings"
@@ -553,6 +554,12 @@ func isErrorTypeV(v ssa.Value) bool {
 // couldBeNil: an error value returned on a path is possibly nil unless the
 // path carries its fail fact or it is a non-nil constructor.
 func couldBeNil(ff *core.FnFacts, v ssa.Value, pf core.FactSet) bool {
+	// a package-level sentinel (`var errX = errors.New(…)`) is never nil
+	if u, ok := v.(*ssa.UnOp); ok && u.Op == token.MUL {
+		if _, isG := u.X.(*ssa.Global); isG {
+			return false
+		}
+	}
 	t := ff.TB.Of(v)
 	var ct *core.Term
 	if t.Op == "err" && t.Args[0].Op == "call" {
